@@ -48,9 +48,9 @@ Record parsed := {
   p_index : list (bytes * bytes * list (N * N));      (* (url, variants value, locations) *)
   p_responses : list rsp
 }.
-Definition ie_url (e : bytes * bytes * list (N * N)) : bytes := fst (fst e).
-Definition ie_vv (e : bytes * bytes * list (N * N)) : bytes := snd (fst e).
-Definition ie_locs (e : bytes * bytes * list (N * N)) : list (N * N) := snd e.
+Definition ix_url (e : bytes * bytes * list (N * N)) : bytes := fst (fst e).
+Definition ix_vv (e : bytes * bytes * list (N * N)) : bytes := snd (fst e).
+Definition ix_locs (e : bytes * bytes * list (N * N)) : list (N * N) := snd e.
 
 (* the section-length table: the listed length of a section IS the length of
    its body, so the bodies tile the file between the section array head and
@@ -68,12 +68,12 @@ Definition file_body (v : bversion) (p : parsed) : bytes :=
 
 (* index *)
 Definition loc_bytes (l : N * N) : bytes := uint_item (fst l) ++ uint_item (snd l).
-Definition index_key (e : bytes * bytes * list (N * N)) : bytes := text_item (ie_url e).
+Definition index_key (e : bytes * bytes * list (N * N)) : bytes := text_item (ix_url e).
 Definition index_val (v : bversion) (e : bytes * bytes * list (N * N)) : bytes :=
   match v with
-  | BV2 => arr_head (2 * lenN (ie_locs e)) ++ flat_map loc_bytes (ie_locs e)
-  | BV1 => arr_head (1 + 2 * lenN (ie_locs e)) ++ bstr_item (ie_vv e)
-           ++ flat_map loc_bytes (ie_locs e)
+  | BV2 => arr_head (2 * lenN (ix_locs e)) ++ flat_map loc_bytes (ix_locs e)
+  | BV1 => arr_head (1 + 2 * lenN (ix_locs e)) ++ bstr_item (ix_vv e)
+           ++ flat_map loc_bytes (ix_locs e)
   end.
 Definition index_body (v : bversion) (idx : list (bytes * bytes * list (N * N))) : bytes :=
   map_head (lenN idx) ++ flat_map (fun e => index_key e ++ index_val v e) idx.
@@ -108,10 +108,10 @@ Definition Delimits (rs : list rsp) (l : N * N) : Prop :=
     /\ snd l = lenN (rsp_bytes r).
 
 Definition EntryOK (v : bversion) (rs : list rsp) (e : bytes * bytes * list (N * N)) : Prop :=
-  Utf8Valid (ie_url e) /\ ie_locs e <> [] /\ Forall (Delimits rs) (ie_locs e)
+  Utf8Valid (ix_url e) /\ ix_locs e <> [] /\ Forall (Delimits rs) (ix_locs e)
   /\ match v with
-     | BV2 => lenN (ie_locs e) = 1 /\ ie_vv e = []
-     | BV1 => ie_vv e = [] -> lenN (ie_locs e) = 1
+     | BV2 => lenN (ix_locs e) = 1 /\ ix_vv e = []
+     | BV1 => ix_vv e = [] -> lenN (ix_locs e) = 1
      end.
 
 Definition IndexOK (v : bversion) (p : parsed) : Prop :=
@@ -164,12 +164,12 @@ Definition delimitsb (rs : list rsp) (l : N * N) : bool :=
     end) (seq 0 (List.length rs)).
 
 Definition entry_okb (v : bversion) (rs : list rsp) (e : bytes * bytes * list (N * N)) : bool :=
-  sutf8_valid (ie_url e)
-  && match ie_locs e with [] => false | _ => true end
-  && forallb (delimitsb rs) (ie_locs e)
+  sutf8_valid (ix_url e)
+  && match ix_locs e with [] => false | _ => true end
+  && forallb (delimitsb rs) (ix_locs e)
   && match v with
-     | BV2 => (lenN (ie_locs e) =? 1) && match ie_vv e with [] => true | _ => false end
-     | BV1 => match ie_vv e with [] => lenN (ie_locs e) =? 1 | _ => true end
+     | BV2 => (lenN (ix_locs e) =? 1) && match ix_vv e with [] => true | _ => false end
+     | BV1 => match ix_vv e with [] => lenN (ix_locs e) =? 1 | _ => true end
      end.
 
 Definition index_okb (v : bversion) (p : parsed) : bool :=
